@@ -119,7 +119,8 @@ ASSUMPTIONS = [
     "run-time context, its second sentence names 'the name it derived (MakeFilename fields)'.  The check reads them "
     "together: MakeFilename may write strings it formats from the static context it saw into context.output.{prefix, "
     "suffix, filename, dirname, fileext} and nothing else (theorem mkfCall_frame; oracle 2a: with these five keys erased "
-    "the flow equals the flow of the tree in which every MakeFilename was handed the same keys with other values).",
+    "the flow equals the flow of the tree in which every MakeFilename was handed the same keys with other values; oracle "
+    "2a': the flow is unchanged when every MakeFilename is handed only the static keys that its format strings name).",
     "JUDGEMENT (degenerate Splits): `Split([])` and a Split all of whose branches are bare fill/compute elements have no "
     "branch context to intersect; lena.context.intersection() of nothing is {}, so they export {} and ERASE the static "
     "context for what follows (Sequence(SetContext('a',1), Split([]), StoreContext()): the store sees {}), although "
@@ -177,8 +178,8 @@ RULE = ("quick: five directed families (hostile in-place updaters next to every 
         "filename/dirname/fileext/prefix/suffix/overwrite, 15 % of the trees with a Cache constructed a second time with "
         "the cache files present) each with two causality variants and a run-time flow out of 7 (1-3 values; none for "
         "trees with fill/compute elements); every element's static state and names are read before and after the run.  "
-        "thorough: all trees with <= 3 leaves over the 7 leaf kinds and <= 2 leaves over all 10, 40 000 seeded 4-leaf "
-        "trees over the 10 kinds, 40 000 random trees.  Non-trivial: some element saw a non-empty context or derived a "
+        "thorough: all trees with <= 3 leaves over the 7 leaf kinds and <= 2 leaves over all 10, 30 000 seeded 4-leaf "
+        "trees over the 10 kinds, 30 000 random trees.  Non-trivial: some element saw a non-empty context or derived a "
         "formatted name.")
 LEVEL_TEXT = ("Lean 4 theorems about a transcribed VALUE model of the multi-pass static-context protocol (bottom-up "
               "construction, _set_context({}) in every constructor, re-propagation by enclosing sequences, skip-while-empty, "
@@ -841,6 +842,24 @@ def _sentinel(d):
     return {k: _sentinel(v) if isinstance(v, dict) else "\u00a7" for k, v in d.items()}
 
 
+def _restrict(seen, node):
+    """the part of the static context `seen` that the format strings of the MakeFilename `node` name"""
+    out = {}
+    for t in node_templates(node):
+        for f in (parse_template(t) or [])[1::2]:
+            parts = [p for p in f.split(".") if p]
+            try:
+                v = ref_get(seen, f)
+            except RefKeyError:
+                continue
+            d = out
+            for p_ in parts[:-1]:
+                d = d.setdefault(p_, {})
+            if parts and not isinstance(d.get(parts[-1]), dict):
+                d[parts[-1]] = copy.deepcopy(v)
+    return out
+
+
 def _neutral_run(tree, ref, make_flow, seed_mkf=True):
     """the no-leak reference run: the same tree with its SetContext elements replaced by inert ones (every static context is empty),
     in which each UpdateContextFromStatic and MakeFilename is handed, by hand, the reference prefix fold of its
@@ -856,7 +875,10 @@ def _neutral_run(tree, ref, make_flow, seed_mkf=True):
     for i2, (nd, o) in enumerate(zip(preorder(t2), objs)):
         if nd["k"] in ("ucfs", "mkf"):
             seen = ref.exp[i2]["seen"]
-            if nd["k"] == "mkf" and not seed_mkf:
+            if nd["k"] == "mkf" and seed_mkf == "fields":
+                # only what its format strings name
+                seen = _restrict(seen, nd)
+            elif nd["k"] == "mkf" and not seed_mkf:
                 # the same keys, every scalar replaced: whatever MakeFilename formats is another string, everything
                 # else it does (which methods can be formatted, whether a bare value gets a context) is the same
                 seen = _sentinel(seen)
@@ -928,6 +950,12 @@ def _run_tree(tree, flow_ctxs, redeliver=None, full=True):
                     res["neutral0"] = {"r": _out_pairs(_neutral_run(tree, ref, make_flow, seed_mkf=False))}
                 except Exception as e:
                     res["neutral0"] = {"e": exc_name(e), "msg": str(e)[:200]}
+                try:
+                    res["neutral1"] = {"r": _out_pairs(_neutral_run(tree, ref, make_flow, seed_mkf="fields"))}
+                except Exception as e:
+                    res["neutral1"] = {"e": exc_name(e), "msg": str(e)[:200]}
+                if res["neutral1"] == res["out"]:
+                    res["neutral1"] = "="       # compact
                 if "r" in res["neutral0"] and "r" in res["out"] and \
                         _erase_names(res["neutral0"]["r"]) == _erase_names(res["out"]["r"]):
                     res["neutral0"] = "="       # compact
@@ -1077,6 +1105,11 @@ def oracle(case, res):
             return (f"run-time result {got} differs from {res['neutral']}, the result of the same tree without its "
                     f"SetContext elements whose UpdateContextFromStatic / MakeFilename were handed the prefix fold "
                     f"(static context leaked or was lost)")
+    # (2a') MakeFilename depends on static context only through the fields its format strings name
+    if got is not None and res.get("neutral1") not in (None, "=") and res["neutral1"] != got:
+        return (f"run-time result {got} differs from {res['neutral1']}, the result when every MakeFilename is handed "
+                f"only the part of the static context that its format strings name (static context leaked through "
+                f"MakeFilename)")
     # (2a) frame of MakeFilename: what it derives from static context reaches the run-time contexts only as
     # output.prefix / suffix / filename / dirname / fileext — with those keys erased, the flow is the one of the tree
     # in which every MakeFilename was handed a static context with the same keys and other scalar values
@@ -1895,8 +1928,8 @@ def gen_cases(ctx):
     """A generator (cases are produced lazily).  quick: the directed families (aliasing, sequence types, output keys, hostile probes, degenerate Splits), every tree with <= 2 leaves over the
     10-leaf alphabet, 4000 seeded draws from the trees with 3 leaves over the 7-leaf alphabet (depth <= 2, Sequence and
     Source tops), 3000 random trees of depth <= 3 with causality variants.  thorough: all trees with <= 3 leaves over the 7
-    leaf kinds and with <= 2 leaves over all 10, 40 000 seeded draws from the trees with 4 leaves over the 10 kinds,
-    40 000 random trees (the parent process holds cases, results and model replies: about 4 GB)."""
+    leaf kinds and with <= 2 leaves over all 10, 30 000 seeded draws from the trees with 4 leaves over the 10 kinds,
+    30 000 random trees (the parent process holds cases, results and model replies: about 4 GB)."""
     rng = ctx.rng
     yield from alias_cases()
     yield from seqtype_cases()
@@ -1910,8 +1943,8 @@ def gen_cases(ctx):
     else:
         yield from exhaustive_cases(3, 2, EX_LEAVES, source=True)
         yield from exhaustive_cases(2, 2, EX_LEAVES + EX_LEAVES_MORE, source=True)
-        yield from sampled_cases(rng, 4, 2, EX_LEAVES + EX_LEAVES_MORE, 40000)
-        n_rand = 40000
+        yield from sampled_cases(rng, 4, 2, EX_LEAVES + EX_LEAVES_MORE, 30000)
+        n_rand = 30000
     for i in range(n_rand):
         pformat = (0.0, 0.3, 0.6)[i % 3]
         yield rand_case(rng, depth=3, pformat=pformat)
